@@ -563,6 +563,27 @@ def caGet (H : Hash) (l : Layer) (c : Bytes) : Out :=
   | none => .none
   | some v => if H v == c then .hit v else .invalid
 
+/-- `get_with_validation` while the backing FILE of the disk layer (layer 1 of a memory + disk
+stack) is rewritten with `alt` during the call: `m = 0` — just before the layer's first read of the
+file; `m ≥ 1` — right after its `m`-th completed read. The code as written reads each layer at most
+once and hands out the buffer it validated, so a rewrite after the read cannot reach the caller; it
+stays in the store unless the failed validation removed the entry. Returns the new layers, the
+outcome and the number of reads of the disk file made by the call. -/
+def getValidatedFault (H : Hash) (cfg : Cfg) (s : List Layer) (k : Bytes) (expected : Option Bytes)
+    (m : Nat) (alt : Bytes) : List Layer × Out × Nat :=
+  let made : Nat :=
+    match s with
+    | l0 :: l1 :: _ => if (lookup k l0).isNone && (lookup k l1).isSome then 1 else 0
+    | _ => 0
+  if m = 0 then
+    let s0 := if made = 1 then (corruptLayer s 1 k alt).1 else s
+    let r := getValidated H cfg s0 k expected
+    (r.1, r.2, made)
+  else
+    let r := getValidated H cfg s k expected
+    let s' := if m ≤ made then (match r.2 with | .hit _ => (corruptLayer r.1 1 k alt).1 | _ => r.1) else r.1
+    (s', r.2, made)
+
 /-- `ContentAddressedCache::get_validated` against a backing store that may answer EVERY read
 differently (a concurrent writer, another process rewriting the DiskCache file, a failing disk,
 an entry expiring): `r k` is what the `k`-th `inner.get` made by this one call returns
